@@ -158,3 +158,17 @@ func init() {
 	mut("C07", "resolution JSON diff marshaller loses the expiration kind", true, "resolution-exhaustive",
 		Edit{"consensus/state.go", "\tcase *types.V2FileContractExpiration:\n\t\ttyp = v2ResolutionExpiration\n\tdefault:\n\t\treturn nil, fmt.Errorf(\"unknown V2FileContractResolutionType: %T\", diff.Resolution)\n", "\tdefault:\n\t\ttyp = v2ResolutionStorageProof\n"})
 }
+
+func init() {
+	// ---- C06 ----
+	a := "consensus/application.go"
+	mut("C06", "RevertBlock does not reverse the v1 contract diffs", true, "order-reversed|fces", Edit{a, "\tslices.Reverse(ms.fces)\n", ""})
+	mut("C06", "reverted-leaf walker passes the siafund spent flag", true, "pre-block-leaf|leaf/siafund", Edit{a, "\t\tfn(siafundLeaf(&sfes[i].SiafundElement, false))", "\t\tfn(siafundLeaf(&sfes[i].SiafundElement, sfes[i].Spent))"})
+	mut("C06", "RevertBlock applies only the transactions (no block-level effects)", true, "same-source",
+		Edit{a, "\tms := NewMidState(s)\n\tms.ApplyBlock(b, bs)\n\n\t// compute updated elements", "\tms := NewMidState(s)\n\tfor i, txn := range b.Transactions {\n\t\tms.ApplyTransaction(txn, bs.Transactions[i])\n\t}\n\n\t// compute updated elements"})
+	mut("C06", "v2 revise recorder overwrites the stored element on every revision", true, "pre-block-element-kept",
+		Edit{a, "\t} else if fced.Revision != nil {\n\t\t*fced.Revision = rev\n\t} else {\n\t\tfced.V2FileContractElement = fce.Copy()\n\t\tfced.Revision = &rev\n\t}", "\t} else {\n\t\tfced.V2FileContractElement = fce.Copy()\n\t\tfced.Revision = &rev\n\t}"})
+	mut("C06", "RevertBlock reverses before re-pointing the leaves", true, "pointer-stability",
+		Edit{a, "\tfor _, elems := range eru.updated {\n\t\tfor i := range elems {\n\t\t\tse := elems[i].StateElement.Move()\n\t\t\telems[i].StateElement = &se\n\t\t}\n\t}\n\tslices.Reverse(ms.sces)", "\tslices.Reverse(ms.sces)\n\tfor _, elems := range eru.updated {\n\t\tfor i := range elems {\n\t\t\tse := elems[i].StateElement.Move()\n\t\t\telems[i].StateElement = &se\n\t\t}\n\t}"})
+	mut("C06", "(benign) reversal through a small local helper loop order changed", false, "", Edit{a, "\tslices.Reverse(ms.sces)\n\tslices.Reverse(ms.sfes)\n", "\tslices.Reverse(ms.sfes)\n\tslices.Reverse(ms.sces)\n"})
+}
